@@ -54,8 +54,8 @@ let () =
       with e -> Printf.printf "%s MODELERROR %s\n" id (Printexc.to_string e))
     | [id; "S"; nu; cts; mans; opss; _] ->
       (* store-level model (Model/GraphStore.v, repaired gcIndex):
-         P<n> Push, T<n> Tag, U<n> n loses its last tag name, X<n> delete, G<k.k.k> GC keeping the untagged manifests k,
-         O reopen, S observe (stored set, then Predecessors of every key) *)
+         P<n> Push, N<n>=<r> Tag n under name r, M<r> Untag name r (T<n>/U<n>: node-level tag / loses its last name), X<n> delete, G<k.k.k> GC keeping the untagged manifests k,
+         O reopen, Y0/Y1 AutoSaveIndex off/on, W SaveIndex, F<r.r> foreign index + reopen, S observe (stored set, what index.json lists / lists under a name, Predecessors of every key), s the same without index.json *)
       (try
         let nu = int_of_string nu in
         let ct = parse_ct cts in
@@ -64,15 +64,22 @@ let () =
         let content = ctab ct in
         let fuel = nat_of_int 100000 in
         let ops = if opss = "-" then [] else String.split_on_char ',' opss in
-        let st = ref empty_store in
+        let st = ref empty_astore in
+        let names = ref [] in
         let toks = ref [] in
         let fuel_out = ref false in
         List.iter (fun t ->
           let rest = String.sub t 1 (String.length t - 1) in
           let arg () = n_of_int (int_of_string rest) in
-          let apply o =
-            let (s', ok) = ostep true true true content isman fuel !st o in
+          let applya1 o =
+            let (s', ok) = astep content isman fuel !st o in
             st := s'; if not ok then fuel_out := true in
+          (* name layer: reference -> node map kept by the model ([ntrans1]) *)
+          let applyn o =
+            let (names', l) = ntrans1 !names o in
+            names := names'; List.iter applya1 l in
+          let applya o = applyn (NOp o) in
+          let apply o = applya (AOp o) in
           match t.[0] with
           | 'P' -> apply (PPush (arg ()))
           | 'T' -> apply (PTag (arg ()))
@@ -84,14 +91,26 @@ let () =
           | 'F' ->
             let roots = if rest = "" then [] else List.map (fun x -> n_of_int (int_of_string x)) (String.split_on_char '.' rest) in
             apply (PForeign roots)
+          | 'N' ->
+            (match String.split_on_char '=' rest with
+             | [a; r] -> applyn (NTag (n_of_int (int_of_string a), n_of_int (int_of_string r)))
+             | _ -> failwith "N")
+          | 'M' -> applyn (NUntag (n_of_int (int_of_string rest)))
           | 'O' -> apply PReopen
-          | 'S' ->
-            toks := ("b:" ^ show_ints (List.map int_of_n !st.o_blobs)) :: !toks;
+          | 'Y' -> applya (ASetAuto (rest = "1"))
+          | 'W' -> applya ASaveIndex
+          | 'S' | 's' ->
+            toks := ("b:" ^ show_ints (List.map int_of_n !st.a_s.o_blobs)) :: !toks;
+            if t.[0] = 'S' then begin
+              let uniq l = List.sort_uniq compare (List.map int_of_n l) in
+              toks := ("i:" ^ show_ints (uniq (!st.a_s.o_dbydigest @ !st.a_s.o_dtagged))) :: !toks;
+              toks := ("t:" ^ show_ints (uniq !st.a_s.o_dtagged)) :: !toks
+            end;
             for i = 0 to nu - 1 do
-              toks := ("p:" ^ show_raw (predecessors_raw !st.o_graph (n_of_int i))) :: !toks
+              toks := ("p:" ^ show_raw (predecessors_raw !st.a_s.o_graph (n_of_int i))) :: !toks
             done
           | _ -> failwith "sop") ops;
-        if !fuel_out then Printf.printf "%s FUEL\n" id
+        if !fuel_out then Printf.printf "%s NOTOK\n" id
         else Printf.printf "%s %s\n" id (String.concat " " (List.rev !toks))
       with e -> Printf.printf "%s MODELERROR %s\n" id (Printexc.to_string e))
     | [id; "L"; kind; subj; cfg; layers; mans; blobs; _] ->
